@@ -759,6 +759,10 @@ func rulesC14(c *Ctx) {
 	// no user listener under a policy's lock; half-open admission by the execution that half-opens the breaker
 	c16Overrides(c)
 	c03OpenTable(c)
+	// a policy result is never written after it was handed on (the stored cancel result is shared by every copy of an
+	// execution and returned by pointer to concurrent attempts): WithDone / WithFailure work on a fresh copy
+	c01Verdict(c)
+	c14Observers(c)
 	configImmutableAll(c)
 	buildCopiesConfig(c)
 	witnessRules(c, "C14")
@@ -1823,6 +1827,12 @@ func c14LiveReads(c *Ctx) {
 				if _, okr := reviewed[key]; okr {
 					continue
 				}
+				// the limiter's execution-flavoured wait, wherever it lives after the dual-mode helper was split: LastError()
+				// of the execution whose Canceled() channel the same function waits on (the wait rule decides that the read
+				// is on the cancelled branch)
+				if name == "LastError" && isCall && cc.Common().IsInvoke() && fn.Pkg != nil && fn.Pkg.Pkg.Name() == "ratelimiter" && waitsOnCanceledOf(fn, cc.Common().Value) {
+					continue
+				}
 				// a helper reachable only from a reviewed function (the reviewed argument still applies: the wait rule
 				// C05.wait checks that the read follows the receive from Canceled())
 				inReviewed := false
@@ -1979,4 +1989,63 @@ func onceGuardedMethod(p *Program, m *ssa.Function, safeRecv func(types.Type, st
 		}
 	}
 	return true
+}
+
+// c14Observers: the clock and stopwatch objects behind a policy are shared by everything built from one builder (the
+// configuration is shared) and read under different locks, or none; the counters and accessors of the stats and of the
+// execution are read by concurrent attempts. A method that is a pure observation by name must not write its receiver:
+// "remember the last reading" in a clock is unsynchronised shared state.
+func c14Observers(c *Ctx) {
+	c.Rule("observers")
+	names := map[string]bool{"CurrentUnixNano": true, "ElapsedTime": true, "executionCount": true, "failureCount": true, "successCount": true,
+		"failureRate": true, "successRate": true, "remainingDelay": true, "state": true}
+	n := 0
+	ok := true
+	for _, fn := range c.P.Funcs {
+		if fn.Signature.Recv() == nil || fn.Parent() != nil || !names[canonName(fn)] || len(fn.Params) == 0 || !c.P.InScope[fn] {
+			continue
+		}
+		n++
+		recv := fn.Params[0]
+		for _, b := range fn.Blocks {
+			for _, in := range b.Instrs {
+				st, isStore := in.(*ssa.Store)
+				if !isStore {
+					continue
+				}
+				a := st.Addr
+				for {
+					if fa, isFA := a.(*ssa.FieldAddr); isFA {
+						a = fa.X
+						continue
+					}
+					if ia, isIA := a.(*ssa.IndexAddr); isIA {
+						a = ia.X
+						continue
+					}
+					break
+				}
+				if a == ssa.Value(recv) {
+					ok = false
+					c.Fail(c.fn(fn), c.P.Pos(in.Pos()), canonName(fn)+" is an observation that concurrent executions (and every policy built from the same builder) make without a common lock, but it writes its receiver", "")
+				}
+			}
+		}
+	}
+	c.Floor("observer methods", n, 6)
+	if ok {
+		c.Ok("library#observers", "", fmt.Sprintf("%d observer methods (clock, stopwatch, stats and state accessors) write nothing to their receiver", n))
+	}
+}
+
+// waitsOnCanceledOf: fn (or the function it is nested in) calls Canceled() on the same execution value x.
+func waitsOnCanceledOf(fn *ssa.Function, x ssa.Value) bool {
+	for _, b := range fn.Blocks {
+		for _, in := range b.Instrs {
+			if cc, ok := in.(ssa.CallInstruction); ok && cc.Common().IsInvoke() && cc.Common().Method.Name() == "Canceled" && cc.Common().Value == x {
+				return true
+			}
+		}
+	}
+	return false
 }
